@@ -86,4 +86,39 @@ theorem flatten_chunksExact {α} (n : Nat) (hn : 0 < n) :
       · exact htl
       · exact h2 p hp
 
+theorem chunksExact_length {α} (n : Nat) (hn : 0 < n) :
+    ∀ (k : Nat) (xs : List α), xs.length = k * n → (chunksExact n xs).length = k := by
+  intro k
+  induction k with
+  | zero =>
+    intro xs h
+    have : xs = [] := List.eq_nil_of_length_eq_zero (by omega)
+    subst this
+    simp [chunksExact_nil]
+  | succ k ih =>
+    intro xs h
+    have hsplit : xs = xs.take n ++ xs.drop n := (List.take_append_drop n xs).symm
+    have hlt : n ≤ xs.length := by rw [h, Nat.add_mul]; omega
+    have htl : (xs.take n).length = n := by simp [List.length_take]; omega
+    have hdl : (xs.drop n).length = k * n := by simp [List.length_drop, h, Nat.add_mul]
+    rw [hsplit, chunksExact_append n hn _ _ htl, List.length_cons, ih (xs.drop n) hdl]
+
+theorem chunksExact_append_whole {α} (n : Nat) (hn : 0 < n) :
+    ∀ (k : Nat) (a b : List α), a.length = k * n → chunksExact n (a ++ b) = chunksExact n a ++ chunksExact n b := by
+  intro k
+  induction k with
+  | zero =>
+    intro a b h
+    have : a = [] := List.eq_nil_of_length_eq_zero (by omega)
+    subst this
+    simp [chunksExact_nil]
+  | succ k ih =>
+    intro a b h
+    have hsplit : a = a.take n ++ a.drop n := (List.take_append_drop n a).symm
+    have hlt : n ≤ a.length := by rw [h, Nat.add_mul]; omega
+    have htl : (a.take n).length = n := by simp [List.length_take]; omega
+    have hdl : (a.drop n).length = k * n := by simp [List.length_drop, h, Nat.add_mul]
+    rw [hsplit, List.append_assoc, chunksExact_append n hn _ _ htl, chunksExact_append n hn _ _ htl,
+      ih (a.drop n) b hdl, List.cons_append]
+
 end OxiModel
